@@ -147,8 +147,8 @@ func runC17(c *kit.Ctx) {
 			return
 		}
 		f := factsOf(r.Block())
-		v := r.Results[0]
-		errNil := kit.IsNilConst(r.Results[1])
+		v := kit.Res(r, 0)
+		errNil := kit.IsNilConst(kit.Res(r, 1))
 		switch {
 		case f.override:
 			c.OK(sl, "return", r.Pos(), "test override branch (tabled: nil in production)")
@@ -156,7 +156,7 @@ func runC17(c *kit.Ctx) {
 			k, okk := durConst(v)
 			c.Check(okk && k == 16*ms && errNil, sl, "return", r.Pos(), "backoff == 0: returns 16ms without waiting", "backoff == 0 edge does not return (16ms, nil)")
 		case f.doneCase:
-			call, isCall := r.Results[1].(*ssa.Call)
+			call, isCall := kit.Res(r, 1).(*ssa.Call)
 			c.Check(isCall && kit.CalleeName(call) == ctxErr && call.Call.Value == ssa.Value(ctxP), sl, "return", r.Pos(),
 				"cancelled: returns ctx.Err()", "the Done() case does not return the context's error")
 		case f.waited && isTrue(f.lt5):
@@ -279,11 +279,11 @@ func runC17(c *kit.Ctx) {
 					}
 				}
 			}
-			collect(r.Results[1])
+			collect(kit.Res(r, 1))
 			why := ""
 			if len(set) == 0 {
-				if k, ok := kit.Strip(r.Results[1]).(*ssa.Const); !ok || k.Value == nil {
-					why = "the flag is not a loop-carried boolean (" + r.Results[1].String() + ")"
+				if k, ok := kit.Strip(kit.Res(r, 1)).(*ssa.Const); !ok || k.Value == nil {
+					why = "the flag is not a loop-carried boolean (" + kit.Res(r, 1).String() + ")"
 				}
 			}
 			for v := range set {
